@@ -280,3 +280,71 @@ func init() {
 		x("AClient", "rcvResp", "asserts-response-matches-request", "assert", "resp__new.mresponse.idx = reqIdx /\\ resp__new.mresponse.key = req.key", "~(resp__new.mresponse.idx # reqIdx) /\\ ~~resp__new.msuccess", "what is delivered answers the current request for the current key"),
 	)
 }
+
+func init() {
+	// rows added from the survivors of the specification sweep (thorough tier)
+	const R = "RAFT-DECISION"
+	const apq = "m.mtype # RequestVoteRequest /\\ m.mtype # RequestVoteResponse /\\ m.mtype = AppendEntriesRequest"
+	const rvp = "m.mtype # RequestVoteRequest /\\ m.mtype = RequestVoteResponse"
+	const app = "m.mtype # RequestVoteRequest /\\ m.mtype # RequestVoteResponse /\\ m.mtype # AppendEntriesRequest /\\ m.mtype = AppendEntriesResponse"
+	const cli = "m.mtype # RequestVoteRequest /\\ m.mtype # RequestVoteResponse /\\ m.mtype # AppendEntriesRequest /\\ m.mtype # AppendEntriesResponse /\\ (m.mtype = ClientPutRequest \\/ m.mtype = ClientGetRequest)"
+	const rejectAE = "(m.mterm < currentTerm__new[i] \\/ (m.mterm = currentTerm__new[i] /\\ state__new[i] = Follower /\\ ~logOK))"
+	op := func(name, body, why string) specRow { return specRow{rule: R, pair: "raftkvs", op: name, body: body, why: why} }
+	r := func(unit, label, key, effect, cond, why string) specRow {
+		return specRow{rule: R, pair: "raftkvs", unit: unit, label: label, key: key, effect: effect, cond: cond, why: why}
+	}
+	x := func(unit, label, key, effect, expr, cond, why string) specRow {
+		return specRow{rule: R, pair: "raftkvs", unit: unit, label: label, key: key, effect: effect, expr: expr, cond: cond, why: why}
+	}
+	specTable(
+		op("ServerRequestVoteSet", "(1*NumServers+1)..(2*NumServers)", "the ids of the vote-requesting archetypes follow the servers' ids block by block"),
+		op("ServerAppendEntriesSet", "(2*NumServers+1)..(3*NumServers)", "ids of the replicating archetypes"),
+		op("ServerAdvanceCommitIndexSet", "(3*NumServers+1)..(4*NumServers)", "ids of the committing archetypes"),
+		op("ServerBecomeLeaderSet", "(4*NumServers+1)..(5*NumServers)", "ids of the leadership archetypes"),
+		op("ClientSet", "(6*NumServers+1)..(6*NumServers+NumClients)", "client ids lie beyond every server-side id"),
+		x("AServer", "serverLoop", "handles-only-own-messages", "assert", "m__new.mdest = self", "", "a server handles messages addressed to it"),
+		x("AServer", "handleMsg", "request-never-ahead-of-adopted-term", "assert", "m.mterm <= currentTerm__new[i]", "(m.mtype = RequestVoteRequest) \\/ ("+apq+")", "after term adoption a request is never ahead of the server"),
+		x("AServer", "handleMsg", "processed-response-is-of-current-term", "assert", "m.mterm = currentTerm__new[i]", "(("+rvp+") \\/ ("+app+")) /\\ ~(m.mterm < currentTerm__new[self])", "a vote that is counted / an acknowledgement that is processed belongs to the current term"),
+		r("AServer", "handleMsg", "records-every-responder", "votesResponded[i] := votesResponded[i] \\cup {j}", rvp+" /\\ ~(m.mterm < currentTerm__new[self])", "every responder of the current term is recorded"),
+		r("AServer", "handleMsg", "learns-leader-of-current-term", "leader[i] := m.msource", apq+" /\\ m.mterm = currentTerm__new[i]", "the sender of an AppendEntries of the current term is the leader"),
+		r("AServer", "handleMsg", "durable-log-pops-the-truncated-suffix", "plog[i] := [cmd |-> LogPop, cnt |-> Len(log[i]) - m.mprevLogIndex]", apq+" /\\ ~"+rejectAE, "the durable log drops exactly the entries behind the agreed prefix"),
+		r("AServer", "handleMsg", "durable-log-appends-entries", "plog[i] := [cmd |-> LogConcat, entries |-> m.mentries]", apq+" /\\ ~"+rejectAE, "... and appends exactly the leader's entries"),
+		x("AServer", "handleMsg", "commit-within-log", "assert", "m.mcommitIndex <= Len(log__new[i])", apq+" /\\ ~"+rejectAE, "a follower is never told to commit beyond its log"),
+		x("AServer", "handleMsg", "follower-applies-newly-committed-range", "with result", "ApplyLog(log__new[i], commitIndex[i]+1, m.mcommitIndex, sm[i], smDomain[i])", apq+" /\\ ~"+rejectAE, "a follower applies exactly the entries between its commit index and the leader's"),
+		r("AServer", "handleMsg", "leader-wakes-replication", "appendEntriesCh[self] := TRUE", cli+" /\\ state[self] = Leader", "a new entry triggers a replication round"),
+		r("AServer", "handleMsg", "leader-logs-durably", "plog[self] := [cmd |-> LogConcat, entries |-> <<entry>>]", cli+" /\\ state[self] = Leader", "the leader's new entry is made durable"),
+		r("AServer", "handleMsg", "non-leader-refuses-with-hint", "net[j] := [mtype |-> respType, msuccess |-> FALSE, mresponse |-> [idx |-> m.mcmd.idx, key |-> m.mcmd.key], mleaderHint |-> leader[i], msource |-> i, mdest |-> j]",
+			cli+" /\\ ~(state[self] = Leader)", "a server that is not the leader refuses the request, names the request's index and hints at the leader"),
+		x("AServerRequestVote", "serverRequestVoteLoop", "election-waits-for-quiet-inbox", "await", "netLen[srvId] = 0", "", "an election starts only when no message is waiting"),
+		r("AServerRequestVote", "requestVoteLoop", "asks-every-server", "idx := idx + 1", "idx <= NumServers", "votes are requested from one server after the other, all of them"),
+		r("AServerAppendEntries", "appendEntriesLoop", "replicates-to-every-server", "idx := idx + 1", "state[srvId] = Leader /\\ idx <= NumServers", "entries are sent to one server after the other, all of them, while leader"),
+	)
+	const P = "PB-DECISION"
+	pr := func(unit, label, key, effect, cond, why string) specRow {
+		return specRow{rule: P, pair: "pbkvs", unit: unit, label: label, key: key, effect: effect, cond: cond, why: why}
+	}
+	px := func(unit, label, key, effect, expr, cond, why string) specRow {
+		return specRow{rule: P, pair: "pbkvs", unit: unit, label: label, key: key, effect: effect, expr: expr, cond: cond, why: why}
+	}
+	pop := func(name, body, why string) specRow { return specRow{rule: P, pair: "pbkvs", op: name, body: body, why: why} }
+	specTable(
+		pop("REPLICA_SET", "1..NUM_REPLICAS", "the replicas are 1..NUM_REPLICAS"),
+		pop("CLIENT_SET", "(NUM_REPLICAS+1)..(NUM_REPLICAS+NUM_CLIENTS)", "client ids follow the replicas'"),
+		pop("NUM_NODES", "NUM_REPLICAS + NUM_CLIENTS", "nodes are the replicas and the clients"),
+		pr("AReplica", "sndSyncReqLoop", "sync-visits-every-replica", "idx := idx + 1", "idx <= NUM_REPLICAS", "the synchronisation round visits the replicas one after the other"),
+		pr("AReplica", "sndReplicaReqLoop", "replication-visits-every-replica", "idx := idx + 1", "idx <= NUM_REPLICAS", "replication visits the replicas one after the other"),
+		px("AReplica", "rcvSyncRespLoop", "asserts-sync-answer-provenance", "assert", "repResp__new.id = 3 /\\ repResp__new.to = self /\\ repResp__new.srcTyp = BACKUP_SRC /\\ repResp__new.typ = SYNC_RESP /\\ (repResp__new.from \\in replicaSet \\/ fd[repResp__new.from])",
+			"Cardinality(replicaSet) > 0", "what the new primary counts as a synchronisation answer is one, from a backup it waits for"),
+		px("AReplica", "rcvMsg", "asserts-own-request", "assert", "req__new.to = self", "~(primary = self /\\ shouldSync)", "a replica handles requests addressed to it"),
+		px("AReplica", "handleBackup", "backup-obeys-primary-only", "assert", "req.srcTyp = PRIMARY_SRC", "", "a backup acts on the primary's requests only"),
+		px("AReplica", "handlePrimary", "primary-serves-clients-only", "assert", "req.srcTyp = CLIENT_SRC", "", "the primary path serves client requests only"),
+		pr("AReplica", "rcvReplicaRespLoop", "suspects-a-waited-for-backup", "replica := CHOOSE r \\in replicaSet: TRUE", "Cardinality(replicaSet) > 0", "the backup given up on is one that is still waited for"),
+		pr("AReplica", "rcvSyncRespLoop", "suspects-a-waited-for-replica", "replica := CHOOSE r \\in replicaSet: TRUE", "Cardinality(replicaSet) > 0", "the replica given up on is one that is still waited for"),
+		px("AClient", "rcvResp", "asserts-put-answer", "assert", "resp__new.to = self /\\ resp__new.from = replica /\\ resp__new.body = ACK_MSG_BODY /\\ resp__new.srcTyp = PRIMARY_SRC /\\ resp__new.typ = PUT_RESP /\\ resp__new.id = idx",
+			"~(resp__new.id # idx) /\\ msg.typ = PUT_REQ", "a Put is acknowledged by the primary it was sent to, for this request"),
+		px("AClient", "rcvResp", "asserts-get-answer", "assert", "resp__new.to = self /\\ resp__new.from = replica /\\ resp__new.srcTyp = PRIMARY_SRC /\\ resp__new.typ = GET_RESP /\\ resp__new.id = idx",
+			"~(resp__new.id # idx) /\\ msg.typ # PUT_REQ /\\ msg.typ = GET_REQ", "a Get is answered by the primary it was sent to, for this request"),
+		pr("AClient", "sndReq", "request-is-numbered-and-addressed", "req := [from |-> self, to |-> replica__new, body |-> msg.body, srcTyp |-> CLIENT_SRC, typ |-> msg.typ, id |-> idx]", "replica__new # NULL", "the request carries the client's id, the primary's id and the request number"),
+		pr("AClient", "sndReq", "retries-when-primary-failed", "goto sndReq", "replica__new # NULL /\\ fd[replica__new]", "a request is re-addressed only when the chosen primary is detected as failed"),
+	)
+}
